@@ -19,6 +19,7 @@ DecideCallback(a) ==
       stateOK == Usable(st) /\ a.att = st /\ a.form = "exact"
       pkOK == ~cfg.pkce \/ Usable(pk) IN
   IF ~stateOK THEN [class |-> "unauthorized", tokenRequests |-> 0, verifier |-> "none", stateChecked |-> FALSE, verifierRead |-> FALSE, stateToApp |-> "none"]
+  ELSE IF a.err THEN [class |-> "errorHandled", tokenRequests |-> 0, verifier |-> "none", stateChecked |-> TRUE, verifierRead |-> FALSE, stateToApp |-> a.att]
   ELSE IF ~pkOK THEN [class |-> "unauthorized", tokenRequests |-> 0, verifier |-> "none", stateChecked |-> TRUE, verifierRead |-> FALSE, stateToApp |-> "none"]
   ELSE [class |-> "exchanged", tokenRequests |-> 1, verifier |-> IF cfg.pkce THEN pk ELSE "none", stateChecked |-> TRUE, verifierRead |-> cfg.pkce, stateToApp |-> a.att]
 
@@ -26,11 +27,11 @@ Ev(op, a) == [op |-> op, args |-> a, out |-> IF op = "StartLogin" THEN DecideSta
 Do(e) == Apply(e) /\ rviol' = rviol \cup {<<r, e.op>> : r \in Check(e)} /\ steps' = steps + 1 /\ UNCHANGED cfg
 
 StartLogin(b) == nAtt < MaxAttempts /\ Do(Ev("StartLogin", [b |-> b]))
-Callback(b, att, form, tamper) == Do(Ev("Callback", [b |-> b, att |-> att, form |-> form, tamper |-> tamper]))
+Callback(b, att, form, tamper, err) == Do(Ev("Callback", [b |-> b, att |-> att, form |-> form, tamper |-> tamper, err |-> err]))
 
 Init == RInit0 /\ cfg \in [pkce : BOOLEAN] /\ steps = 0
 Next == steps < MaxSteps /\ (\/ \E b \in Browsers : StartLogin(b)
-                             \/ \E b \in Browsers, att \in Attempts \cup {"t0"}, f \in Forms, t \in Tampers : Callback(b, att, f, t))
+                             \/ \E b \in Browsers, att \in Attempts \cup {"t0"}, f \in Forms, t \in Tampers, er \in BOOLEAN : Callback(b, att, f, t, er))
 Spec == Init /\ [][Next]_dvars
 NoViolation == rviol = {}
 View == <<cfg, jar, nAtt, rviol>>
